@@ -1,6 +1,7 @@
 open BinNums
 open BinPosDef
 open Datatypes
+open Nat
 
 module Pos :
  sig
@@ -34,4 +35,16 @@ module Pos :
   val compare : positive -> positive -> comparison
 
   val eqb : positive -> positive -> bool
+
+  val coq_Nsucc_double : coq_N -> coq_N
+
+  val coq_Ndouble : coq_N -> coq_N
+
+  val coq_land : positive -> positive -> coq_N
+
+  val iter_op : ('a1 -> 'a1 -> 'a1) -> positive -> 'a1 -> 'a1
+
+  val to_nat : positive -> nat
+
+  val of_succ_nat : nat -> positive
  end
